@@ -6,6 +6,7 @@ import (
 	"fmt"
 	"os"
 	"path/filepath"
+	"slices"
 	"strings"
 	"sync"
 
@@ -89,19 +90,7 @@ func (c *Compiler) getVariables(t *ast.Task, call *Call, evaluateShVars bool) (*
 		}
 	}
 	rangeFunc := getRangeFunc(c.Dir)
-
 	var taskRangeFunc func(k string, v ast.Var) error
-	if t != nil {
-		// NOTE(@andreynering): We're manually joining these paths here because
-		// this is the raw task, not the compiled one.
-		cache := &templater.Cache{Vars: result}
-		dir := templater.Replace(t.Dir, cache)
-		if err := cache.Err(); err != nil {
-			return nil, err
-		}
-		dir = filepathext.SmartJoin(c.Dir, dir)
-		taskRangeFunc = getRangeFunc(dir)
-	}
 
 	for k, v := range c.TaskfileEnv.All() {
 		if err := rangeFunc(k, v); err != nil {
@@ -119,6 +108,17 @@ func (c *Compiler) getVariables(t *ast.Task, call *Call, evaluateShVars bool) (*
 				return nil, err
 			}
 		}
+		// NOTE(@andreynering): We're manually joining these paths here because
+		// this is the raw task, not the compiled one. This happens after the
+		// global and include variables are known, so that the task's dir may
+		// refer to them.
+		cache := &templater.Cache{Vars: result}
+		dir := templater.Replace(t.Dir, cache)
+		if err := cache.Err(); err != nil {
+			return nil, err
+		}
+		dir = filepathext.SmartJoin(c.Dir, dir)
+		taskRangeFunc = getRangeFunc(dir)
 		for k, v := range t.IncludedTaskfileVars.All() {
 			if err := taskRangeFunc(k, v); err != nil {
 				return nil, err
@@ -153,16 +153,19 @@ func (c *Compiler) HandleDynamicVar(v ast.Var, dir string, e []string) (string, 
 		return "", nil
 	}
 
-	if c.dynamicCache == nil {
-		c.dynamicCache = make(map[string]string, 30)
-	}
-	if result, ok := c.dynamicCache[*v.Sh]; ok {
-		return result, nil
-	}
-
 	// NOTE(@andreynering): If a var have a specific dir, use this instead
 	if v.Dir != "" {
 		dir = v.Dir
+	}
+
+	if c.dynamicCache == nil {
+		c.dynamicCache = make(map[string]string, 30)
+	}
+	// The output of a command depends on the directory and the environment it
+	// runs in, not only on its text.
+	key := dynamicCacheKey(*v.Sh, dir, e)
+	if result, ok := c.dynamicCache[key]; ok {
+		return result, nil
 	}
 
 	var stdout bytes.Buffer
@@ -182,10 +185,18 @@ func (c *Compiler) HandleDynamicVar(v ast.Var, dir string, e []string) (string, 
 	result := strings.TrimSuffix(stdout.String(), "\r\n")
 	result = strings.TrimSuffix(result, "\n")
 
-	c.dynamicCache[*v.Sh] = result
+	c.dynamicCache[key] = result
 	c.Logger.VerboseErrf(logger.Magenta, "task: dynamic variable: %q result: %q\n", *v.Sh, result)
 
 	return result, nil
+}
+
+// dynamicCacheKey identifies an execution of a dynamic variable's command:
+// the command, the directory and the (order-independent) environment.
+func dynamicCacheKey(sh, dir string, env []string) string {
+	sorted := slices.Clone(env)
+	slices.Sort(sorted)
+	return strings.Join(append([]string{sh, dir}, sorted...), "\x00")
 }
 
 // ResetCache clear the dynamic variables cache
